@@ -4,6 +4,7 @@ import io
 from hypothesis import strategies as st
 
 from vlib import gen_inputs as gi
+from vlib import greybox
 from vlib import ref_marks
 from vlib.monitors import CallBudget, BudgetExceeded
 from vlib.runner import Arm, Eval, Failure
@@ -260,6 +261,10 @@ def arms(tier):
             quick=5000, thorough=300000),
         Arm("bytes", make_eval("bytes"), lambda: with_stream(gi.byte_inputs()), quick=9000, thorough=500000),
         Arm("truncations", make_eval("truncation"), enum=enum_truncations),
+        # coverage-guided search (vlib/greybox.py): candidates are kept when the evaluation below reached new library lines or
+        # new scanner/parser states; the oracle is the same as for every other arm
+        Arm("greybox", make_eval("greybox"), enum=lambda s, ns, tier: greybox.campaign(
+            s, ns, tier, PROPERTY, "greybox", quick=16000, thorough=1200000, wrap=lambda t: (t, False))),
     ]
 
 
